@@ -1,0 +1,79 @@
+//go:build verif
+
+// Contracts for package cmd, checked by /verif (govc). Comments only; compiled
+// only with -tags verif; adds no code. Syntax: /verif/DESIGN.md Appendix A.
+
+package cmd
+
+// ---------------------------------------------------------------------------
+// Reservoir sampling of tips (property C20)
+//
+// The probabilistic argument is the weakest pre-expectation rule for the loop
+// with invariant expectation  Pr[element p is in the reservoir after i
+// elements] = min(1, n/i).  The code obligations below pin the loop body to the
+// abstract reservoir step  (draw r uniformly in [0, i+1); if r < n replace
+// slot r), the lemmas prove that this step preserves the invariant
+// expectation, and that no other draw range does.
+// ---------------------------------------------------------------------------
+
+//@ lemma [reservoir_step_preserves_inclusion_probability] forall i int, n int, m int :: n >= 1 && i >= n && m == i + 1 ==> (real(n) / real(i)) * (1 - 1 / real(m)) == real(n) / real(i + 1) && real(min(n, m)) / real(m) == real(n) / real(i + 1)
+//@ lemma [reservoir_draw_range_is_forced] forall i int, n int, m int :: n >= 1 && i >= n && m >= 1 && (real(n) / real(i)) * (1 - 1 / real(m)) == real(n) / real(i + 1) ==> m == i + 1
+
+//@ func cmd.randomTips
+//@   requires tr != nil && n >= 0
+//@   allocates []string, []*tree.Node
+//@   assigns ghost(rand_count), ghost(rand_last), ghost(rand_range)
+//@   call math/rand.Intn [draw_among_all_elements_seen_so_far] a0 == i + 1
+//@   loop 1
+//@     assigns elems(sampled), ghost(rand_count), ghost(rand_last), ghost(rand_range)
+//@     invariant [count] total == i && i >= 0
+//@     invariant [reservoir_is_the_result_slice] sampled == lold(sampled) && len(sampled) == n
+//@     step [fill_phase] i < n ==> sampled[i] == tip.name && (forall k int :: 0 <= k && k < n && k != i ==> sampled[k] == atHead(sampled[k])) && ghost(rand_count) == atHead(ghost(rand_count))
+//@     step [replace_phase_one_draw] i >= n ==> ghost(rand_count) == atHead(ghost(rand_count)) + 1 && ghost(rand_range) == i + 1
+//@     step [replace_phase_hit] i >= n && ghost(rand_last) < n ==> sampled[ghost(rand_last)] == tip.name && (forall k int :: 0 <= k && k < n && k != ghost(rand_last) ==> sampled[k] == atHead(sampled[k]))
+//@     step [replace_phase_miss] i >= n && ghost(rand_last) >= n ==> (forall k int :: 0 <= k && k < n ==> sampled[k] == atHead(sampled[k]))
+//@   ensures [size] len(result) <= n
+
+// ---------------------------------------------------------------------------
+// Reservoir sampling of trees (property C20): `gotree sample`
+// loop 1: without replacement (same abstract step as randomTips, element count = totaltrees)
+// loop 2/3: with replacement, each slot j independently replaced with probability 1/totaltrees
+// ---------------------------------------------------------------------------
+
+//@ func cmd.readTrees
+//@   allocates chan, iface
+//@   assigns nothing
+//@   ensures [channel_on_success] err == nil ==> treeChannel != nil && treefile != nil
+
+//@ func cmd.readTree
+//@   allocates tree.Tree, tree.Node, tree.Edge, iface
+//@   assigns nothing
+//@   ensures [tree_on_success] err == nil ==> t != nil
+
+//@ func cmd.openWriteFile
+//@   allocates iface
+//@   assigns nothing
+//@   ensures [file_on_success] err == nil ==> f != nil
+
+//@ func cmd.closeWriteFile
+//@   assigns nothing
+
+//@ lemma [replacement_slot_step_preserves_uniformity] forall i int, m int :: i >= 1 && m == i + 1 ==> (1 / real(i)) * (1 - 1 / real(m)) == 1 / real(i + 1) && 1 / real(m) == 1 / real(i + 1)
+
+//@ func cmd.sampleCmd.RunE
+//@   flag noframe
+//@   call math/rand.Intn [draw_among_all_elements_seen_so_far] replace ? a0 == totaltrees : a0 == totaltrees + 1
+//@   loop 1
+//@     invariant [count] totaltrees >= 0
+//@     invariant [reservoir_size] len(outtrees) == numtrees
+//@     step [fill_phase] totaltrees < numtrees ==> outtrees[totaltrees] == t.Tree && (forall k int :: 0 <= k && k < numtrees && k != totaltrees ==> outtrees[k] == atHead(outtrees[k])) && ghost(rand_count) == atHead(ghost(rand_count))
+//@     step [replace_phase_one_draw] totaltrees >= numtrees ==> ghost(rand_count) == atHead(ghost(rand_count)) + 1 && ghost(rand_range) == totaltrees + 1
+//@     step [replace_phase_hit] totaltrees >= numtrees && ghost(rand_last) < numtrees ==> outtrees[ghost(rand_last)] == t.Tree && (forall k int :: 0 <= k && k < numtrees && k != ghost(rand_last) ==> outtrees[k] == atHead(outtrees[k]))
+//@     step [replace_phase_miss] totaltrees >= numtrees && ghost(rand_last) >= numtrees ==> (forall k int :: 0 <= k && k < numtrees ==> outtrees[k] == atHead(outtrees[k]))
+//@   loop 2
+//@     invariant [count] totaltrees >= 0
+//@     invariant [reservoir_size] len(outtrees) == numtrees
+//@   loop 3
+//@     invariant [slot_range] j >= 0 && totaltrees >= 1 && len(outtrees) == numtrees
+//@     step [one_draw_per_slot_among_all_seen] ghost(rand_count) == atHead(ghost(rand_count)) + 1 && ghost(rand_range) == totaltrees
+//@     step [slot_replaced_iff_draw_is_zero] (ghost(rand_last) == 0 ? outtrees[j] == t.Tree : outtrees[j] == atHead(outtrees[j])) && (forall k int :: 0 <= k && k < numtrees && k != j ==> outtrees[k] == atHead(outtrees[k]))
